@@ -1011,7 +1011,7 @@ int write_msa_msf(struct msa* msa,char* outfile)
                                    max_name_len,max_name_len,
                                    msa->sequences[i]->name ,
                                    aln_len,
-                                   GCGchecksum(msa->sequences[i]->seq, msa->sequences[i]->len),
+                                   GCGchecksum(msa->sequences[i]->seq, msa->alnlen),
                                    1.0);
                 if(written >= line_length){
                         MREALLOC(lb->lines[lb->num_line]->line,sizeof(char) * (written+1));
@@ -1020,7 +1020,7 @@ int write_msa_msf(struct msa* msa,char* outfile)
                                            max_name_len,max_name_len,
                                            msa->sequences[i]->name ,
                                            aln_len,
-                                           GCGchecksum(msa->sequences[i]->seq, msa->sequences[i]->len),
+                                           GCGchecksum(msa->sequences[i]->seq, msa->alnlen),
                                            1.0);
                 }
                 ol->block = -1;
